@@ -109,3 +109,23 @@ REG.contracts["nucs/solvers/backtrack_solver.py::solve_one#once"].props = ["C02"
 solve_one_contract("enum", "iface:ConsistencyAlg", SEM_INV + [("C02.absent", ABSENT_KEPT)], SEM_ENS + [("C02.absent", f"implies(result is not None, {ABSENT_KEPT})")], timeout_ms=400000,
     step_ensures=SEM_STEP + [("C02.top_absent", f"implies(absent({SS0}, old(stacks_top)[0]), trig({T_IT0}) == {T_IT0} and not in_box(it0({SS}), {T_IT0}))")])
 REG.contracts["nucs/solvers/backtrack_solver.py::solve_one#enum"].props = ["C02"]
+
+# ------------------------------------------------------------------ fixpoint layer (C08): every propagation pass of a search starts from a state where the
+# constraints that are not queued are at a fixpoint, so (ConsistencyAlgFix) it ends at a common fixpoint of the enabled constraints
+CA_FIX_ENS = [c for c in CA_ENS if c[0] != "C02.preserve"] + FIX_ENS
+interface("ConsistencyAlgFix", types=ENGINE_T, requires=WF_STATIC + WF_DYN + FIX_REQ, ensures=CA_FIX_ENS, modifies=CA_MOD)
+FIX_KL = f"forall(l, 0, stacks_top[0], forall(p, 0, P, implies({NEs}[l, p] and not {WATCH('l')}, fixp({SS}, l, p))))"
+FIX_STATE = [("C08.K", FIX_K(SS, "triggered_propagators", "-1")), ("C08.KL", FIX_KL)]
+ROWS_BELOW = f"forall(l, 0, {T_IT0}, axiom_fix_frame(it0({SS}), l, {SS}, l, 0, 0))"          # rows below the level the iteration started at are untouched
+NEW_ROW = lambda l: f"axiom_fix_frame(S_mid, {T_IT0}, {SS}, {l}, dom_update_stack[{T_IT0}, DOM_UPDATE_IDX], ite({l} == stacks_top[0], ev_top, dom_update_stack[{l}, DOM_UPDATE_EVENTS]))"
+solve_one_contract("fix", "iface:ConsistencyAlgFix",
+    [(f"C17.backtracks", f"{dstat(BT)} >= bt")] + FIX_STATE,
+    [("C08.K_post", f"implies(result is not None, {FIX_K(SS, 'triggered_propagators', '-1')})"), ("C08.KL_post", f"implies(result is not None, {FIX_KL})")],
+    timeout_ms=200000, snap_after={"consistency_alg_fct": {"S_mid": "shr_domains_stack"}}, ghost_results={"dom_heuristic_fct": "ev_top"})
+_c = REG.contracts["nucs/solvers/backtrack_solver.py::solve_one#fix"]
+_c.extra["ghost_init"] = dict(_c.extra["ghost_init"], ev_top=0)
+_c.props = ["C08", "C01", "C02"]
+_c.tags = dict(_c.tags, C08=["C08", "C01", "C02"])
+_c.requires = list(_c.requires) + [NOALIAS, AFFEQ_FULL] + [(n + "0", e) for n, e in FIX_STATE]
+_c.loops[1]["step_hints"] = [ROWS_BELOW, NEW_ROW(T_IT0), NEW_ROW(T_IT0 + " + 1"), NEW_ROW(T_IT0 + " + 2")]
+_c.loops[1]["return_hints"] = [ROWS_BELOW]
